@@ -99,7 +99,11 @@ class Gen:
                 return ("index", ty, l[0], r.randrange(self.lists[l[0]]))
         if ty in (INT, STR) and r.random() < 0.08 and not self.no_tern:
             self.no_tern += 1
-            t = ("tern", ty, self.expr(BOOL, env, depth - 1), sub(ty), sub(ty))
+            # every conditional expression of a program is textually unique (finding C02 repeated-identical-conditional-untyped):
+            # its condition carries a conjunct `K = K` with a fresh K
+            self.n += 1
+            uniq = ("bin", BOOL, "=", ("lit", INT, 100 + self.n), ("lit", INT, 100 + self.n))
+            t = ("tern", ty, ("bin", BOOL, "and", self.expr(BOOL, env, depth - 1), uniq), sub(ty), sub(ty))
             self.no_tern -= 1
             return t
         if ty == INT and r.random() < 0.06:
@@ -128,10 +132,10 @@ class Gen:
                 objs = [v for v in env if v[1] in self.classes and not self.classes[v[1]]["exc"]]
                 if objs:
                     o = r.choice(objs)
-                    c = self.classes[o[1]]
-                    choices = [("field", INT, o[0], a) for a, t in c["args"] if t == INT]
-                    choices += [("field", INT, o[0], f[0]) for f in c["fields"] if f[1] == INT]
-                    ms = [(m, d) for m, d in c["methods"].items() if d["ret"] == INT and d["fin_self"]]
+                    margs, mfields, mmethods = self.members(o[1])
+                    choices = [("field", INT, o[0], a) for a, t in margs if t == INT]
+                    choices += [("field", INT, o[0], f[0]) for f in mfields if f[1] == INT]
+                    ms = [(m, d) for m, d in mmethods.items() if d["ret"] == INT and d["fin_self"]]
                     if ms and r.random() < 0.5:
                         m, d = r.choice(ms)
                         return ("mcall", INT, o[0], m, [self.expr(t, env, depth - 1) for _, t, _ in d["params"] if True][:len(d["params"])])
@@ -229,7 +233,9 @@ class Gen:
             name = self.fresh("t")
             ty = r.choice([INT, STR])
             self.no_tern += 1
-            st = ("ifdef", name, ty, self.expr(BOOL, env, 1), self.expr(ty, env, 1), self.expr(ty, env, 1))
+            self.n += 1
+            uniq = ("bin", BOOL, "=", ("lit", INT, 100 + self.n), ("lit", INT, 100 + self.n))
+            st = ("ifdef", name, ty, ("bin", BOOL, "and", self.expr(BOOL, env, 1), uniq), self.expr(ty, env, 1), self.expr(ty, env, 1))
             self.no_tern -= 1
             return st, env + [(name, ty, True)]
         if k < 0.93 and not in_fun:
@@ -242,7 +248,8 @@ class Gen:
         objs = [v for v in env if v[1] in self.classes and not self.classes[v[1]]["exc"] and v[2]]
         if objs and not in_fun:
             o = r.choice(objs)
-            c = self.classes[o[1]]
+            _a, mfields, mmethods = self.members(o[1])
+            c = dict(fields=mfields, methods=mmethods)
             ms = [(m, d) for m, d in c["methods"].items() if not d["fin_self"]]
             if ms:
                 m, d = r.choice(ms)
@@ -295,15 +302,40 @@ class Gen:
             i = self.fresh("e")
             body, _ = self.block(env + [(i, ELEM[src[1]], False)], r.randint(1, 2), in_fun, depth - 1)
             return ("forin", i, src[0], body), env
-        if k < 0.9:
+        if k < 0.86:
             name = self.fresh("n")
             return ("negdef", name, self.expr(INT, env, 1)), env + [(name, INT, True)]
+        if k < 0.93:
+            name = self.fresh("d")
+            ty = r.choice([INT, INT, STR])
+            self.no_tern += 1
+            tree = self.block_tree(ty, env, 2, top=True)
+            self.no_tern -= 1
+            return ("blockdef", name, ty, tree), env + [(name, ty, True)]
         objs = [v for v in env if v[1] in self.classes and not self.classes[v[1]]["exc"]]
         cs = [c for c, d in self.classes.items() if not d["exc"]]
         if objs and cs:
             name = self.fresh("q")
             return ("isadef", name, r.choice(objs)[0], r.choice(cs)), env + [(name, BOOL, True)]
         return None
+
+    def block_tree(self, ty, env, depth, top=False):
+        """a statement-form conditional or match whose branches are blocks (prints, then a tail that is an expression or another tree)"""
+        r = self.rng
+
+        def block():
+            stmts = [("print", self.expr(r.choice([INT, STR]), env, 1)) for _ in range(r.randint(0, 2))]
+            if depth > 0 and r.random() < 0.5:
+                tail = self.block_tree(ty, env, depth - 1)
+                if not stmts:
+                    stmts = [("print", self.lit(STR))]
+            else:
+                tail = ("expr", self.expr(ty, env, 1))
+            return (stmts, tail)
+        if top or r.random() < 0.6:
+            return ("ifb", self.expr(BOOL, env, 1), block(), block())
+        vals = r.sample(range(0, 5), r.randint(1, 2))
+        return ("matchb", self.expr(INT, env, 1), [(v, block()) for v in vals], block())
 
     # ---------------------------------------------------------------- definitions
     def fun(self, env0=()):
@@ -347,9 +379,27 @@ class Gen:
         for _ in range(r.randint(0, 2)):
             t = r.choice([INT, STR])
             fields.append((self.fresh("g"), t, self.lit(t), r.random() < 0.3))
-        d = dict(args=args, fields=fields, methods={}, parent=None, exc=False)
+        d = dict(args=args, fields=fields, methods={}, parent=None, pargs=[], exc=False)
+        # a parent among the classes defined so far: its Int arguments must come from own class arguments (the parser takes
+        # no Int literal there), its Str arguments from own arguments or literals
+        cands = []
+        for pn, pd in self.classes.items():
+            if pd["exc"]:
+                continue
+            if all(t == STR or any(t2 == INT for _, t2 in args) for _, t in pd["args"]):
+                cands.append(pn)
+        if cands and r.random() < 0.6:
+            pn = r.choice(cands)
+            d["parent"] = pn
+            for _, t in self.classes[pn]["args"]:
+                own = [a for a, t2 in args if t2 == t]
+                if t == INT or (own and r.random() < 0.5):
+                    d["pargs"].append(("var", t, r.choice(own)))
+                else:
+                    d["pargs"].append(self.lit(STR))
         self.classes[name] = d
-        selfenv = [("self." + a, t, False) for a, t in args] + [("self." + f[0], f[1], False) for f in fields]
+        inh_args, inh_fields, _ = self.members(d["parent"]) if d["parent"] else ([], [], {})
+        selfenv = [("self." + a, t, False) for a, t in inh_args + args] + [("self." + f[0], f[1], False) for f in inh_fields + fields]
         for _ in range(r.randint(1, 3)):
             m = self.fresh("m")
             fin_self = r.random() < 0.6
@@ -366,6 +416,14 @@ class Gen:
             d["methods"][m] = dict(params=params, ret=ret, body=body, last=last, fin_self=fin_self)
         return name
 
+    def members(self, cname):
+        """(class arguments, fields, methods) of a class including everything inherited"""
+        d = self.classes[cname]
+        a, f, m = self.members(d["parent"]) if d.get("parent") and d["parent"] in self.classes and not d["exc"] else ([], [], {})
+        m = dict(m)
+        m.update(d["methods"])
+        return a + list(d["args"]), f + list(d["fields"]), m
+
     def exc(self):
         name = self.fresh("Err")
         parent = self.rng.choice(self.excs) if self.excs and self.rng.random() < 0.5 else "Exception"
@@ -378,7 +436,7 @@ class Gen:
         items = []
         for _ in range(r.randint(0, 2)):
             items.append(("exc", self.exc()))
-        for _ in range(r.randint(0, 1)):
+        for _ in range(r.choice([0, 1, 1, 2, 3])):
             items.append(("class", self.klass()))
         for _ in range(r.randint(1, 2)):
             items.append(("fun", self.fun()))
@@ -422,6 +480,8 @@ class Printer:
         head = "class %s" % name
         if d["args"]:
             head += "(" + ", ".join("def %s: %s" % a for a in d["args"]) + ")"
+        if d.get("parent"):
+            head += ": " + d["parent"] + ("(" + ", ".join(self.e(a) for a in d["pargs"]) + ")" if d["pargs"] else "")
         self.lines.append(head)
         for f, t, init, fin in d["fields"]:
             self.lines.append("    def %s%s: %s := %s" % ("fin " if fin else "", f, t, self.e(init)))
@@ -517,10 +577,38 @@ class Printer:
                 self.stmt(t, ind + 1)
         elif k == "negdef":
             L.append("%sdef %s: Int := -(%s)" % (pad, s[1], self.e(s[2])))
+        elif k == "blockdef":
+            self.tree(s[3], ind, "%sdef %s: %s := " % (pad, s[1], s[2]))
         elif k == "isadef":
             L.append("%sdef %s: Bool := %s isa %s" % (pad, s[1], s[2], s[3]))
         else:
             raise ValueError(k)
+
+    def tree(self, t, ind, head):
+        """prints a block tree; `head` precedes the keyword on the first line (the definition, or just the indentation)"""
+        pad = "    " * ind
+        L = self.lines
+
+        def block(b, n):
+            stmts, tail = b
+            for st in stmts:
+                self.stmt(st, n)
+            if tail[0] == "expr":
+                L.append("    " * n + self.e(tail[1]))
+            else:
+                self.tree(tail, n, "    " * n)
+        if t[0] == "ifb":
+            L.append("%sif %s then" % (head, self.e(t[1])))
+            block(t[2], ind + 1)
+            L.append(pad + "else")
+            block(t[3], ind + 1)
+        else:
+            L.append("%smatch %s" % (head, self.e(t[1])))
+            for v, b in t[2]:
+                L.append("%s    %d =>" % (pad, v))
+                block(b, ind + 2)
+            L.append("%s    _ =>" % pad)
+            block(t[3], ind + 2)
 
     def e(self, x, top=True):
         k = x[0]
@@ -687,8 +775,24 @@ class Interp:
                 self.merge(env, local)
         elif k == "negdef":
             env[s[1]] = -self.e(s[2], env)
+        elif k == "blockdef":
+            env[s[1]] = self.tree(s[3], env)
         elif k == "isadef":
             env[s[1]] = self.is_a(env[s[2]].cls, s[3])
+
+    def tree(self, t, env):
+        def block(b):
+            stmts, tail = b
+            for st in stmts:
+                self.stmt(st, env)
+            return self.e(tail[1], env) if tail[0] == "expr" else self.tree(tail, env)
+        if t[0] == "ifb":
+            return block(t[2]) if self.e(t[1], env) else block(t[3])
+        v = self.e(t[1], env)
+        for val, b in t[2]:
+            if val == v:
+                return block(b)
+        return block(t[3])
 
     def merge(self, env, local):
         """block scoping: definitions of the block vanish, reassignments of outer names persist"""
@@ -702,14 +806,24 @@ class Interp:
             cls = self.p.classes[cls]["parent"] if cls in self.p.classes else None
         return anc == "Exception"
 
-    def new(self, c, args):
+    def new(self, c, args, o=None):
         d = self.p.classes[c]
-        o = Obj(c)
-        for (a, _), v in zip(d["args"], args):
-            o.f[a] = v
+        o = o or Obj(c)
+        own = {a: v for (a, _), v in zip(d["args"], args)}
+        if d.get("parent") and not d["exc"]:
+            self.new(d["parent"], [self.e(a, own) for a in d["pargs"]], o)
+        o.f.update(own)
         for f, t, init, fin in d["fields"]:
             o.f[f] = self.e(init, {})
         return o
+
+    def method(self, cls, name):
+        while cls is not None:
+            d = self.p.classes[cls]
+            if name in d["methods"]:
+                return d["methods"][name]
+            cls = d.get("parent") if not d["exc"] else None
+        raise KeyError(name)
 
     def callf(self, f, args, this=None, d=None):
         d = d or self.p.funcs[f]
@@ -749,7 +863,7 @@ class Interp:
             return self.callf(x[2], [self.e(a, env) for a in x[3]])
         if k == "mcall":
             o = env["self"] if x[2] == "self" else env[x[2]]
-            d = self.p.classes[o.cls]["methods"][x[3]]
+            d = self.method(o.cls, x[3])
             return self.callf(x[3], [self.e(a, env) for a in x[4]], this=o, d=d)
         if k == "field":
             o = env["self"] if x[2] == "self" else env[x[2]]
